@@ -321,6 +321,73 @@ def gen_simple_dag(rng: random.Random) -> list:
     return decls
 
 
+def gen_simple2_dag(rng: random.Random) -> list:
+    """Aimed at the fragment of `C02b.parse_faithful_partial2` (`Simple2`): object schemas whose properties are plain primitives,
+    $refs, arrays of either or maps of either, plus top-level arrays / primitive aliases; acyclic; declared in a random order.
+    Whether a document IS in the fragment is decided by the Lean predicate (`parserInFragment2`), not by this generator: some
+    of what is generated here is deliberately outside (a map property whose context name collides with a declared name)."""
+    pool = ["Order", "Customer", "Address", "Item", "UserGroup", "User", "Tree", "Aa", "Bb", "OrderMeta", "Tags", "Price"]
+    names = rng.sample(pool, rng.randint(1, 6))
+    decls = []
+    for i, n in enumerate(names):
+        def leaf():
+            return R(rng.choice(names[:i])) if i > 0 and rng.random() < 0.55 else {"p": rng.choice(PRIMS), "e": False}
+        r0 = rng.random()
+        if r0 < 0.12:
+            decls.append([n, {"i": leaf()}])
+            continue
+        if r0 < 0.18:
+            decls.append([n, {"p": rng.choice(PRIMS), "e": False}])
+            continue
+        keys = rng.sample(["id", "name", "owner", "group", "items", "user_group", "data", "meta", "labels", "kids", "tags"],
+                          rng.randint(0, 5))
+        props = []
+        for k in keys:
+            r = rng.random()
+            props.append([k, leaf() if r < 0.4 else {"i": leaf()} if r < 0.7 else {"o": None, "q": [], "a": leaf()}])
+        req = [k for k in keys if rng.random() < 0.4]
+        decls.append([n, {"o": props, "q": req, "a": None}])
+    rng.shuffle(decls)
+    return decls
+
+
+def ranks_of(decls: list):
+    """The least rank table satisfying `Simple2.cost` (Pog/Lemmas/ParserFaithful2.lean: propCost / topCost / leafCost), or None when
+    the references are cyclic or dangling (then the document is outside the fragment anyway)."""
+    nodes = dict((d[0], d[1]) for d in decls)
+    memo: dict = {}
+
+    def leaf_cost(nd, seen):
+        return rank(nd["r"], seen) + 2 if "r" in nd else 0
+
+    def prop_cost(nd, seen):
+        if "r" in nd:
+            return rank(nd["r"], seen) + 1
+        if "i" in nd:
+            return leaf_cost(nd["i"], seen) + 1
+        if "a" in nd and nd.get("o") is None and nd.get("a") is not None:
+            return leaf_cost(nd["a"], seen) + 1
+        return 0
+
+    def rank(n, seen):
+        if n in memo:
+            return memo[n]
+        if n in seen or n not in nodes:
+            raise ValueError(n)
+        nd = nodes[n]
+        seen = seen | {n}
+        r = leaf_cost(nd["i"], seen) if "i" in nd else 0
+        for _k, p in (nd.get("o") or []) if "o" in nd else []:
+            r = max(r, prop_cost(p, seen))
+        memo[n] = r
+        return r
+
+    try:
+        return [[n, rank(n, frozenset())] for n in nodes]
+    except (ValueError, KeyError, TypeError, RecursionError):
+        return None
+
+
 def gen_decls(rng: random.Random) -> list:
     r0 = rng.random()
     if r0 < 0.12:
@@ -638,6 +705,53 @@ def _run_parser(rng: random.Random, n_cases: int, driver: str, res: dict) -> Non
             res["samples"].append({"parser": [md, decls], "events": impl["events"][:12], "raises": impl["raises"]})
 
 
+def _run_fragment2(rng: random.Random, n_cases: int, driver: str, res: dict) -> None:
+    """The tie between the THEOREM `C02b.parse_faithful_partial2` and the real loader: documents the Lean decision procedure
+    `inFragment2` accepts (C02b.inFragment2_sound: then the model loads without error and every declared name is Faithful) are
+    loaded by the real load_ir_from_spec, which must not raise and must give every declared schema exactly the fields the document
+    declares.  Membership is decided in Lean; the generators only aim."""
+    cases = []
+    for k in range(n_cases):
+        decls = gen_simple2_dag(rng) if k % 4 else gen_decls(rng)
+        rs = ranks_of(decls)
+        if rs is None:
+            res["distribution"]["fragment2:no-rank(cyclic/dangling)"] = res["distribution"].get("fragment2:no-rank(cyclic/dangling)", 0) + 1
+            continue
+        top = max([r for _n, r in rs] + [0])
+        md = rng.choice([top + 1, top + 1, top, 10, 150])     # top + 1 is the tightest depth limit the theorem allows
+        cases.append((md, ORACLE_FUEL, decls, rs))
+    if not cases:
+        return
+    member = _drive(driver, [{"f": "parserInFragment2", "a": [md, fuel, decls, rs]} for md, fuel, decls, rs in cases])
+    for (md, fuel, decls, rs), m in zip(cases, member):
+        if m is not True:
+            key = "fragment2:outside" if m is False else "fragment2:driver-error"
+            res["distribution"][key] = res["distribution"].get(key, 0) + 1
+            if m is not False and len(res["disagreements"]) < 50:
+                res["disagreements"].append({"label": "fragment2", "request": [md, fuel, decls, rs], "model": m, "impl": None})
+            continue
+        res["distribution"]["fragment2:inside"] = res["distribution"].get("fragment2:inside", 0) + 1
+        txt = json.dumps(decls)
+        for tag, pat in [("array", '"i"'), ("map", '"a": {'), ("tight-depth", None)]:
+            if (pat and pat in txt) or (pat is None and md == max([r for _n, r in rs] + [0]) + 1):
+                res["distribution"]["fragment2:inside:" + tag] = res["distribution"].get("fragment2:inside:" + tag, 0) + 1
+        impl = py_parse(md, fuel, decls)
+        res["comparisons"] += 1
+        spec = dict((n, f) for n, f in impl["spec"])
+        bad = []
+        if impl["oom"] or impl["raises"]:
+            bad.append(["raises", impl["raises"] or "RecursionError"])
+        else:
+            for n, fs, kind in impl["fields"]:
+                if fs is None or kind != "full" or not _same_field_set(fs, spec[n]):
+                    bad.append([n, kind, fs, spec[n]])
+        if bad and len(res["disagreements"]) < 50:
+            res["disagreements"].append({"label": "fragment2: C02b.parse_faithful_partial2 holds of the model on this document, the real loader is not faithful",
+                                         "request": [md, fuel, decls, rs], "model": "inFragment2 = true => Faithful for every declared name", "impl": bad})
+        elif not bad:
+            res["nontrivial"] += 1 if ('"i"' in txt or '"a": {' in txt) else 0
+
+
 # ----------------------------------------------------------------------------------------------
 # oracle: C08 / C02 / C19 evaluated directly on the real parser
 
@@ -872,6 +986,7 @@ def run(seed: int, scale: float, driver: str) -> dict:
     res = {"comparisons": 0, "disagreements": [], "nontrivial": 0, "rule": "", "samples": [], "distribution": {}}
     _run_tracker(rng, max(20, int(1500 * scale)), driver, res)
     _run_parser(rng, max(20, int(8000 * scale)), driver, res)
+    _run_fragment2(random.Random(seed ^ 0x5f2), max(20, int(1500 * scale)), driver, res)
     res["rule"] = (
         "parser: random schema graphs (1-5 named schemas from pools with prefix pairs User/UserGroup, Pet/PetOwner, "
         "Order/OrderItem, names containing Item/Property, a non-class-cased name; nodes: $ref, primitive(+enum), object "
@@ -881,6 +996,9 @@ def run(seed: int, scale: float, driver: str) -> dict:
         "nesting of _parse_schema, the whole registry after build_schemas (key, kind, name, type, items, fields with "
         "wire key/required/summary), tracker states, rest flag, raised error; non-trivial = some enter answered other "
         "than CONTINUE, or an error raised. "
+        "fragment2: documents aimed at Simple2 (objects with primitive / $ref / array / map properties, top-level arrays and "
+        "primitive aliases, depth limit down to the tightest the theorem allows) whose membership the driver decides with "
+        "inFragment2 (C02b.inFragment2_sound); on every accepted document the real loader must not raise and must be faithful. "
         "tracker: random enter/exit/reset sequences (half parser-shaped, half arbitrary) over a name pool with "
         "prefix pairs, Item/Property/Children names and the empty name, max depth in {0,1,2,3,5,150}; compared per "
         "event: action, placeholder kind, stored flag, depth, stack, states, detected cycles; non-trivial = at least "
